@@ -280,6 +280,7 @@ pub fn reference_tally(ops: impl IntoIterator<Item = Op>) -> TallyMirror {
 pub struct Sites {
     case: LoopCase,
     next_id: AtomicU64,
+    calls: AtomicU64,
     /// Executions per (thread, site).
     occurrences: Mutex<Vec<[u32; 5]>>,
 }
@@ -348,6 +349,12 @@ impl Sites {
     }
 
     fn call(&self, id: u64) {
+        // Budget on benchmarked calls: a run that would never end (e.g. tuning a
+        // zero-cost function under a frozen clock) is cut and reported as
+        // excluded, never as a verdict.
+        if self.calls.fetch_add(1, SeqCst) > 64 * self.case.horizon {
+            panic!("{}", clock::HORIZON_PANIC);
+        }
         log::event(Kind::Call, id, 0);
         self.visit(SITE_CALL);
     }
@@ -613,6 +620,7 @@ pub fn run_case(case: &LoopCase) -> LoopOutcome {
     *SITES.write().unwrap_or_else(|e| e.into_inner()) = Some(Arc::new(Sites {
         case: case.clone(),
         next_id: AtomicU64::new(1),
+        calls: AtomicU64::new(0),
         occurrences: Mutex::new(Vec::new()),
     }));
     log::reset();
